@@ -202,6 +202,21 @@ theorem conditional_assign_spec (hin : EnvIn [a0, a1, a2, a3, a4, b0, b1, b2, b3
   rw [h]
   split <;> simp_all [toZ_cons, toZ_nil]
 
+/-- `conditional_swap(a, b, c)` (five/ten `u64::conditional_swap` on the limbs): the pair unchanged if `c = 0`, exchanged if `c = 1` -/
+theorem conditional_swap_spec (hin : EnvIn [a0, a1, a2, a3, a4, b0, b1, b2, b3, b4, c] FiatField51.pre_conditional_swap) :
+    ∃ out, Dalek.Gen.FiatField51.conditional_swap.evalC [a0, a1, a2, a3, a4, b0, b1, b2, b3, b4, c] = some out ∧
+      Dalek.Gen.FiatField51.conditional_swap.evalW [a0, a1, a2, a3, a4, b0, b1, b2, b3, b4, c] = out ∧
+      out = if c = 0 then [a0, a1, a2, a3, a4, b0, b1, b2, b3, b4] else [b0, b1, b2, b3, b4, a0, a1, a2, a3, a4] := by
+  obtain ⟨out, hC, hW, hpost, hZ⟩ := Prog.norm_sound _ _ _ _ Dalek.Gen.Norm.FiatField51.conditional_swap_norm_ok _ hin
+  refine ⟨out, hC, hW, ?_⟩
+  have h := Dalek.Proofs.FiatField51.conditional_swap_correct a0 a1 a2 a3 a4 b0 b1 b2 b3 b4 c
+  rw [← Dalek.Gen.Norm.FiatField51.conditional_swap_fn_ok] at h
+  simp only [toZ_cons, toZ_nil] at hZ
+  rw [hZ] at h
+  apply Dalek.Proofs.Mont.toZ_inj
+  rw [h]
+  split <;> simp_all [toZ_cons, toZ_nil]
+
 end
 
 /-- non-vacuity: all limbs at the tight bound satisfy the contract of `mul` -/
